@@ -42,6 +42,17 @@ def streams_for(prop):
         if prop == "C04":
             S.append(dict(name="array-ops/arith", gen=ga.gen_arith, impl=ia.run, oracle=ra.check_case))
             S.append(dict(name="array-ops/reduce", gen=ga.gen_reduce, impl=ia.run, oracle=ra.check_case))
+            S.append(dict(name="array-ops/stack", gen=ga.gen_stack, impl=ia.run, oracle=ra.check_case))
+        if prop == "C04":
+            # a parameter handed to a lifetime model in any storage order (cast to the model's dims)
+            import gen_dsm
+            import impl_dsm
+            import ref_dsm
+            from fractions import Fraction
+            S.append(dict(name="dsm", gen=gen_dsm.gen_dsm, impl=impl_dsm.run, oracle=ref_dsm.CHECKS["C08"],
+                          mode="spec", abs_tol=Fraction(1, 10 ** 9)))
+        if prop == "C06":
+            S.append(dict(name="array-ops/stack", gen=ga.gen_stack, impl=ia.run, oracle=ra.check_case))
         S.append(dict(name="index", gen=gen_index.gen_index, impl=ia.run, oracle=ra.check_case))
     elif prop in ("C03", "C08", "C09", "C10", "C16"):
         import gen_dsm
@@ -50,6 +61,14 @@ def streams_for(prop):
         from fractions import Fraction
         S.append(dict(name="dsm", gen=gen_dsm.gen_dsm, impl=impl_dsm.run, oracle=ref_dsm.CHECKS[prop],
                       mode="spec", abs_tol=Fraction(1, 10 ** 9)))
+    elif prop in ("C13", "C15"):
+        import gen_history
+        import ref_history
+        orc = ref_history.check_C13 if prop == "C13" else ref_history.check_C15
+        S.append(dict(name="history", gen=gen_history.gen_history, impl=ia.run, oracle=orc))
+        if prop == "C15":
+            import gen_index
+            S.append(dict(name="index", gen=gen_index.gen_index, impl=ia.run, oracle=ra.check_case))
     elif prop == "C17":
         import gen_dsmhist
         import impl_dsmhist
@@ -69,6 +88,8 @@ def streams_for(prop):
 PROPS = {
     "C01": dict(title="arithmetic by label"),
     "C07": dict(title="summing, casting, shares"),
+    "C13": dict(title="shape invariant, failed calls change nothing"),
+    "C15": dict(title="inputs untouched, results independent"),
     "C14": dict(title="dimension sets as ordered sets"),
     "C03": dict(title="stocks conserve mass"),
     "C08": dict(title="survival tables"),
